@@ -191,6 +191,62 @@ class Project:
             self._index(m)
         for c in self.classes.values():
             c.bases = [self._resolve_base(c, b) for b in c.base_exprs]
+        self.n_canonicalised = self._canonical_calls()
+
+    def _canonical_calls(self):
+        """Rewrite `f(a, y=b)` to `f(a, b)` in the analysed ASTs where `f` is a
+        package function (resolved through the module's names, local names
+        excluded) or a method reached through `self`, and `y` is the next
+        positional parameter: rules then see one spelling of a call whether
+        the source passes an argument by position or by keyword."""
+        n_changed = 0
+        for fi in list(self.functions.values()):
+            selfn = None
+            owner = fi
+            while owner is not None and owner.cls is None:
+                owner = owner.parent
+            if owner is not None and owner.params:
+                selfn = owner.params[0]
+            local = set(fi.all_params)
+            for n in own_nodes(fi):
+                if isinstance(n, ast.Name) and isinstance(n.ctx, ast.Store):
+                    local.add(n.id)
+            for n in own_nodes(fi):
+                if not isinstance(n, ast.Call) or not n.keywords or any(
+                        isinstance(a, ast.Starred) for a in n.args) or any(
+                        k.arg is None for k in n.keywords):
+                    continue
+                g, skip = None, 0
+                if isinstance(n.func, ast.Name) and n.func.id not in local:
+                    r = self.resolve_global(fi.module, n.func.id)
+                    if r and r[0] == 'func':
+                        g = r[1]
+                elif isinstance(n.func, ast.Attribute) and isinstance(
+                        n.func.value, ast.Name) and selfn is not None and \
+                        n.func.value.id == selfn and owner.cls is not None:
+                    g = self.find_method(owner.cls, n.func.attr)
+                    if g is not None and any(
+                            isinstance(d, ast.Name) and d.id in (
+                                'staticmethod', 'property')
+                            for d in g.decorators()):
+                        g = None
+                    skip = 1
+                if g is None or g.is_lambda or g.decorators():
+                    continue
+                params = g.params[skip:]
+                moved = True
+                while moved:
+                    moved = False
+                    i = len(n.args)
+                    if i < len(params):
+                        for k in n.keywords:
+                            if k.arg == params[i]:
+                                n.args.append(k.value)
+                                n.keywords.remove(k)
+                                moved = True
+                                n_changed += 1
+                                break
+        return n_changed
 
     # -- indexing ---------------------------------------------------------
     def _index(self, m):
